@@ -561,7 +561,11 @@ def c14_query_history(ctx, kind):
     for unw in (False, True):
         queries.append(('all-shortest[unweighted=%s]' % unw, lambda g, unw=unw: _norm(g.find_all_shortest_paths(unweighted=unw))))
     queries += [('has_cycles', lambda g: g.has_cycles()), ('is_tree', lambda g: g.is_tree()), ('n_edges', lambda g: g.n_edges),
-                ('isolated', lambda g: g.has_isolated_vertices())]
+                ('isolated', lambda g: g.has_isolated_vertices()), ('edges', lambda g: _norm(np.asarray(g.edges))),
+                ('adjacency', lambda g: _norm(g.adjacency_matrix.toarray()))]
+    if kind in ('undirected', 'point-undirected'):
+        for root in (0, n - 1):
+            queries.append(('mst[root=%d]' % root, lambda g, root=root: _norm(g.minimum_spanning_tree(root).adjacency_matrix.toarray())))
     want = {}
     for nm, q in queries:
         try:
@@ -1294,6 +1298,15 @@ def c09_apply_history(ctx, d):
         close(ctx, name + '/after-in-place-edit-of-an-earlier-argument', t.apply(x), first, 0)
         close(ctx, name + '/edited-array-gives-its-own-answer', t.apply(y), t.copy().apply(y.copy()) if hasattr(t, 'copy') else t.apply(y.copy()), 0)
         close(ctx, name + '/fresh-equal-array', t.apply(x0.copy()), first, 0)
+        buf = x0.copy()
+        view = buf.view()
+        view.flags.writeable = False
+        close(ctx, name + '/read-only-view', t.apply(view), first, 0)
+        buf[...] = x0 * 0.5 + 0.2                   # the caller edits the buffer behind the read-only view
+        fresh_t = type(t)(t.source, t.target) if name in ('PiecewiseAffine', 'ThinPlateSplines') or name.startswith('Alignment') else t
+        close(ctx, name + '/read-only-view-after-its-buffer-was-edited', t.apply(view), fresh_t.apply(buf.copy()), 0)
+        buf[...] = x0
+        close(ctx, name + '/read-only-view-after-its-buffer-was-restored', t.apply(view), first, 0)
         close(ctx, name + '/batched', t.apply(x, batch_size=4), first, 0)
         close(ctx, name + '/through-a-shape', t.apply(S.PointCloud(x.copy())).points, first, 0)
         if hasattr(t, 'copy'):
